@@ -14,17 +14,18 @@ RULE = ("i64 <base> <allowSign> <limit> <hex>: Parser::Tokenizer::int64 on a fre
         "(truncation at every offset, byte flips, duplication, splicing), random bytes. non-trivial = the parser returned a value; "
         "distinct = distinct input lines")
 TRUSTED = ["specified, not verified: SBuf::substr/consume and the C library (isdigit/isalpha/isupper/tolower in the C locale, strtoll, "
-           "strtol, atoi as glibc's (int)strtol) are given as list/arithmetic specifications in the model; tied by the differential run",
+           "strtol) are given as list/arithmetic specifications in the model; tied by the differential run",
            "two flags of Gen/TokConsts.lean (type of `acc`, atoi vs strtol) are read from the source text by regular expressions"]
 ASSUMPTIONS = ["`base` is a C int, `limit` an SBuf::size_type (32 bits); C locale; header values are C strings (no NUL)"]
 MANIFEST = {
-    "text": "full for Tokenizer::int64/udec64 and httpHeaderParseOffset: the Lean model follows the C++ branch by branch with the C integer "
-            "types explicit (int64_t overflow = outcome ub) and is proved equal, for every byte string, every C int base, sign setting and "
-            "limit, to an arbitrary-precision specification (sign, 0x prefix, maximal digit run, Horner value, range test), except on the "
-            "inputs whose negative magnitude passes through exactly 2^63, where the signed accumulator overflows (proved, witness "
-            "-9223372036854775808; known finding, candidate fix). httpHeaderParseInt: exact when the value fits in int (partial); it wraps "
-            "otherwise (proved witness 4294967297 -> 1; known finding, candidate fix). The real functions run under ASan/UBSan against the "
-            "model and against a python big-integer oracle",
+    "text": "full: the Lean model of Tokenizer::int64/udec64 follows the C++ branch by branch with the C integer types explicit (uint64_t "
+            "accumulator, int cutlim, signed overflow would be the outcome ub) and is proved equal, for every byte string, every C int base, "
+            "sign setting and limit, to an arbitrary-precision specification (sign, 0x prefix, maximal digit run, Horner value, range test); "
+            "hence exact value, exact consumed length, failure only when no digit or out of range, and no undefined behaviour on any input. "
+            "httpHeaderParseOffset and httpHeaderParseInt (strtol + range check) are proved to return the exact value of [ws][sign]digits or "
+            "to fail. The pre-fix variants (int64_t accumulator, atoi) are kept as labelled model variants with their counterexamples "
+            "(fixed in cc4ab0d, 5201bbe; witnesses are regression cases). The real functions run under ASan/UBSan against the model and "
+            "against a python big-integer oracle",
     "note": "trusted: Lean kernel (+axioms as printed), translator of limits and of the two source-text flags, harness, python oracle; "
             "specified not verified: SBuf primitives and libc conversions (strtoll/strtol/atoi/ctype)",
     "technique": "Lean 4 proof (loop invariant relating the cutoff/cutlim test to unbounded Horner evaluation) + constants translator + "
@@ -36,10 +37,10 @@ I64MAX = (1 << 63) - 1
 I64MIN = -(1 << 63)
 I32MAX = (1 << 31) - 1
 I32MIN = -(1 << 31)
-# The framework minimises and classifies only the first 40 failing cases of a run, so witnesses of the known findings are
-# capped well below that: they must never crowd out a new failure.
-UB_CAP = 8
-WRAP_CAP = 8
+# Both former findings (C27-int64-min-ub, C27-parseint-wraps) are fixed in /repo (cc4ab0d, 5201bbe): the inputs of the two
+# regions are ordinary cases now and every one the generators produce is run. Should a sanitizer abort come back, each abort costs a
+# process restart, so the number of aborting inputs per run is still bounded (ABORT_CAP), far above what a regression needs to show.
+ABORT_CAP = 400
 
 
 def build_exe(stage):
@@ -405,23 +406,17 @@ def wrap_zone(data):
 
 
 class Budget:
-    """admits at most UB_CAP / WRAP_CAP inputs of the two known-finding regions per run"""
+    """bounds the number of inputs of the former overflow zone per run (see ABORT_CAP); everything else is admitted"""
 
     def __init__(self, rng):
         self.rng = rng
         self.ub = 0
-        self.wrap = 0
 
     def admit(self, line):
         w = line.split()
         if w[0] == "i64" and ub_zone(unhx(w[4]), int(w[1]), int(w[2]) == 1, int(w[3])):
-            if self.ub >= UB_CAP or not self.rng.chance(1, 6):
-                return False
             self.ub += 1
-        elif w[0] == "pi" and wrap_zone(unhx(w[1])):
-            if self.wrap >= WRAP_CAP or not self.rng.chance(1, 40):
-                return False
-            self.wrap += 1
+            return self.ub <= ABORT_CAP
         return True
 
 
